@@ -542,6 +542,14 @@ def regex_language(pattern: str, limit: int = 64) -> set[str] | None:
     return seq(tree)
 
 
+def clone(node: ast.AST) -> ast.AST:
+    """Deep copy of a subtree that does not follow the `parent` link of its root (which would copy the whole module)."""
+    import copy
+
+    p = getattr(node, "parent", None)
+    return copy.deepcopy(node, {id(p): None} if p is not None else {})
+
+
 def inline_locals(expr: ast.AST, fn: ast.AST, keep: set[str] | frozenset[str] = frozenset(), depth: int = 3) -> ast.AST:
     """`expr` with every local that the function binds exactly once (plain `name = <expression>`, no augmented or
     conditional re-binding) replaced by that expression - the named-boolean refactoring undone, so that a test can
@@ -569,13 +577,94 @@ def inline_locals(expr: ast.AST, fn: ast.AST, keep: set[str] | frozenset[str] = 
     class Sub(ast.NodeTransformer):
         def visit_Name(self, n: ast.Name):  # noqa: N802
             if isinstance(n.ctx, ast.Load) and n.id in single:
-                return copy.deepcopy(single[n.id])
+                return clone(single[n.id])
             return n
 
-    out = copy.deepcopy(expr)
+    out = clone(expr)
     for _ in range(depth):
         before = ast.dump(out)
         out = ast.fix_missing_locations(Sub().visit(out))
         if ast.dump(out) == before:
             break
+    return out
+
+
+def inline_single_return_helpers(fn: ast.AST, mod: Module, arg_name: str, depth: int = 2) -> ast.AST:
+    """A copy of `fn` in which every call `helper(..., <arg_name>, ...)` of a module-level function whose body is a
+    single `return <expr>` (docstring aside) is replaced by that expression with the parameters substituted - the
+    extract-helper refactoring undone, so that rules which follow one parameter through a method (which fields of the
+    node reach the result, in which order) see through helpers that receive the node.  `*args` of the helper are spliced
+    where the helper uses `*args`.  The copy carries parent links and the line numbers of the original method."""
+    import copy
+
+    def single_return(h: ast.AST) -> ast.expr | None:
+        body = [s for s in h.body if not (isinstance(s, ast.Expr) and isinstance(s.value, ast.Constant))]
+        if len(body) == 1 and isinstance(body[0], ast.Return) and body[0].value is not None:
+            return body[0].value
+        return None
+
+    class Inline(ast.NodeTransformer):
+        def visit_Call(self, c: ast.Call):  # noqa: N802
+            self.generic_visit(c)
+            if not (isinstance(c.func, ast.Name) and any(isinstance(a, ast.Name) and a.id == arg_name for a in c.args)):
+                return c
+            h = mod.defs.get(c.func.id)
+            if not isinstance(h, ast.FunctionDef) or c.keywords:
+                return c
+            expr = single_return(h)
+            if expr is None or h.args.kwonlyargs or h.args.kwarg:
+                return c
+            params = [a.arg for a in h.args.posonlyargs + h.args.args]
+            if len(c.args) < len(params) - len(h.args.defaults) or any(isinstance(a, ast.Starred) for a in c.args):
+                return c
+            bind = {p: c.args[i] for i, p in enumerate(params) if i < len(c.args)}
+            rest = c.args[len(params):]
+            if rest and h.args.vararg is None:
+                return c
+            var = h.args.vararg.arg if h.args.vararg is not None else None
+
+            class Sub(ast.NodeTransformer):
+                def visit_Name(self, n: ast.Name):  # noqa: N802
+                    return clone(bind[n.id]) if isinstance(n.ctx, ast.Load) and n.id in bind else n
+
+                def _splice(self, elts: list[ast.expr]) -> list[ast.expr]:
+                    out: list[ast.expr] = []
+                    for e in elts:
+                        if isinstance(e, ast.Starred) and isinstance(e.value, ast.Name) and e.value.id == var:
+                            out.extend(clone(r) for r in rest)
+                        else:
+                            out.append(self.visit(e))
+                    return out
+
+                def visit_Tuple(self, t: ast.Tuple):  # noqa: N802
+                    t.elts = self._splice(t.elts)
+                    return t
+
+                def visit_List(self, t: ast.List):  # noqa: N802
+                    t.elts = self._splice(t.elts)
+                    return t
+
+                def visit_Call(self, k: ast.Call):  # noqa: N802
+                    k.func = self.visit(k.func)
+                    k.args = self._splice(k.args)
+                    for kw in k.keywords:
+                        kw.value = self.visit(kw.value)
+                    return k
+
+            new = Sub().visit(clone(expr))
+            return ast.copy_location(new, c)
+
+    out = clone(fn)
+    for _ in range(depth):
+        before = ast.dump(out)
+        out = Inline().visit(out)
+        if ast.dump(out) == before:
+            break
+    ast.fix_missing_locations(out)
+    out.parent = getattr(fn, "parent", None)  # type: ignore[attr-defined]
+    for node in ast.walk(out):
+        for child in ast.iter_child_nodes(node):
+            child.parent = node  # type: ignore[attr-defined]
+        if not hasattr(node, "lineno") and isinstance(node, (ast.expr, ast.stmt)):
+            node.lineno = getattr(fn, "lineno", 1)  # type: ignore[attr-defined]
     return out
